@@ -188,6 +188,10 @@ def run(ck):
     from ..report import RuleView
     from . import c17
     c17.run(RuleView(ck, {"C17.2": "C11.8"}))
+    ck.clause("C11.12", "unpaired labels are found by membership of their label number in the kept pairs, on both strands alike - never by "
+                        "label-number arithmetic, which fails for the descending numbers of a reverse-strand query (as C12.3)")
+    from . import c12
+    c12.run(RuleView(ck, {"C12.3": "C11.12"}))
     ck.clause("C11.11", "a confidence tie between a '+' and a '-' candidate is not decided by the strand")
     from .c05 import best_candidate_tiebreak
     best_candidate_tiebreak(ck, "C11.11")
